@@ -2,7 +2,7 @@
 
 Concretisation (DESIGN 3.10): token t(n) -> n digits (cycling, so plain characters never
 occur in inserted material and the minimal diff plain -> source is unique), w(n) -> "\n\t"[:n],
-oX/cX -> "<X>" / "</X>"; annotation k -> before '<a id="k">', after '</a>' (balanced element,
+d(n) -> n letters in the plain text only (a deletion of the diff), oX/cX -> "<X>" / "</X>"; annotation k -> before '<a id="k">', after '</a>' (balanced element,
 occurs nowhere in the texts; ties of equal spans sort by k, as sorted() does).
 Projection: the output split at the before/after strings into items B(k) / A / s(text);
 lxml's verdict on "<div>"+output+"</div>" and its text content (the judge C11 names).
@@ -25,6 +25,9 @@ def render(src):
             d += t["n"]
             out.append(s)
             plain.append(s)
+        elif t["c"] == "d":                     # plain text the source lacks (letters: they occur nowhere in the target)
+            plain.append("xyz"[d % 3] * t["n"])
+            d += t["n"]
         elif t["c"] == "w":
             out.append("\n\t"[: t["n"]])
         else:
